@@ -112,9 +112,33 @@ func runC18(c *core.Ctx, idx int) {
 		}(rd)
 	}
 	// parser hammer
+	cells := s.sc.St("cells")
+	// queries without a predicate, parsed while other goroutines parse rejected text: they must keep matching every cell
+	for p := 0; p < 2; p++ {
+		rwg.Add(1)
+		go func(p int) {
+			defer rwg.Done()
+			bare := []string{"limit 100", "skip 0", "sort by name", "sort by gen desc limit 50"}
+			for i := 0; !stop.Load(); i++ {
+				text := bare[(i+p)%len(bare)]
+				q, err := ast.Parse(cells.Store, text)
+				c.Count("concurrent_parses", 1)
+				if err != nil {
+					c.Violationf("C18 concurrent parse gave the wrong verdict", text, "query %q: %v", text, err)
+					continue
+				}
+				_ = s.db.View(func(tx *bbolt.Tx) error {
+					ids, _, err := cells.Store.QueryIdsC(tx, q)
+					if err != nil || len(ids) != stampCells {
+						c.Violationf("C18 predicate-less query picked up a filter under concurrency", text, "query %q returned %d of %d cells (err=%v; parsed as %s)", text, len(ids), stampCells, err, q.String())
+					}
+					return nil
+				})
+			}
+		}(p)
+	}
 	queries := []string{`gen = 1`, `name = "x" and anyOf(roles) = "all"`, `meta.tag != "t" or hub.gen > 3 sort by name desc skip 1 limit 2`, `anyOf(hubs.gen) in [1, 2, 3]`,
 		`isEmpty(from hubs where gen > 1)`, `gen between 1 and 5`, `name icontains "NAME"`, `gen = `, `name = "x" §`, `(gen = 1`, `zz = 1`, `not (gen = 1) and name != null`}
-	cells := s.sc.St("cells")
 	for p := 0; p < 4; p++ {
 		rwg.Add(1)
 		go func(p int) {
